@@ -30,6 +30,15 @@ ConfCancel(nd) == nd.a = "Cancel" =>
 ConfWithdraw(nd) == nd.a = "Withdraw" =>
    LET g == nd.args IN Res(nd, Withdraw(Pre(nd), Cfg(nd), g.u, g.coll, g.debt, g.prem, g.amt, g.denom))
 
+(* block steps: the deposit book follows the automatic fills; how much of each deposit was used is read off the  *)
+(* recorded step                                                                                                   *)
+UsedOf(nd) == LET p == Pre(nd) s == Post(nd) IN [i \in 1..Len(p.dep) |-> p.dep[i].amt - DepOf(s, p.dep[i].prem, p.dep[i].u)]
+ConfFill(nd) ==
+  nd.a \in {"Block", "OpenDutch"} =>
+     LET p == Pre(nd) s == Post(nd) used == UsedOf(nd) IN
+     /\ FillOk(p, used)
+     /\ LET f == Fill(p, used) IN DRange(f.dep) = DRange(s.dep) /\ Len(f.dep) = Len(s.dep) /\ f.total = s.total
+
 (* ------------------------------ C11 ------------------------------ *)
 C11LimitTotal(nd) == IF IsStep(nd) THEN TotalFollows(Pre(nd), Post(nd)) ELSE TotalMatches(Post(nd))
 C11LimitNonNeg(nd) == IsStep(nd) => DepsStayNonNeg(Pre(nd), Post(nd))
@@ -56,13 +65,14 @@ C11LimitFill(nd) ==
      /\ \A i \in 1..Len(s.dep) : DepOf(p, s.dep[i].prem, s.dep[i].u) >= s.dep[i].amt
      /\ \A u \in LUsers : \A d \in LDenoms : s.bal[u][d] >= p.bal[u][d]
 
-Formulas == <<"Conf_Deposit", "Conf_Cancel", "Conf_Withdraw",
+Formulas == <<"Conf_Deposit", "Conf_Cancel", "Conf_Withdraw", "Conf_Fill",
               "C11_LimitTotal", "C11_LimitNonNeg", "C11_LimitCustody", "C11_LimitOwnOnly", "C11_LimitDeposit", "C11_LimitFill">>
 Holds(f, i) ==
   LET nd == Nd(i) IN
   CASE f = "Conf_Deposit" -> ConfDeposit(nd)
     [] f = "Conf_Cancel" -> ConfCancel(nd)
     [] f = "Conf_Withdraw" -> ConfWithdraw(nd)
+    [] f = "Conf_Fill" -> ConfFill(nd)
     [] f = "C11_LimitTotal" -> C11LimitTotal(nd)
     [] f = "C11_LimitNonNeg" -> C11LimitNonNeg(nd)
     [] f = "C11_LimitCustody" -> C11LimitCustody(nd)
@@ -73,16 +83,28 @@ Judge == \A k \in 1..Len(Formulas) : Holds(Formulas[k], cur) \/ PrintT(<<"FAIL",
 
 Count(P(_)) == Cardinality({i \in 1..NLog : P(Nd(i))})
 OkAct(nd, a) == nd.a = a /\ nd.res.ok
+(* Antecedent counters. They witness the situation that was DRIVEN (pre-state + request), never the outcome the  *)
+(* code produced: a change of the outcome must not make the run look vacuous.                                     *)
+DutchOf(nd) == Log[nd.parent].st.dutch
+Touched(nd, i) == LET p == Pre(nd) IN DepOf(Post(nd), p.dep[i].prem, p.dep[i].u) # p.dep[i].amt \/ DIdx(Post(nd).dep, p.dep[i].prem, p.dep[i].u) = 0
+AloneAtPremium(p, i) == \A j \in 1..Len(p.dep) : j # i => p.dep[j].prem # p.dep[i].prem
+(* a block step reached a deposit that is equal to / larger than / smaller than the remaining debt of a live auction *)
+Offered(nd, Rel(_, _)) == nd.a = "Block" /\ \E i \in 1..Len(Pre(nd).dep) : \E k \in 1..Len(DutchOf(nd)) :
+                             DutchOf(nd)[k].debt > 0 /\ Rel(Pre(nd).dep[i].amt, DutchOf(nd)[k].debt) /\ Touched(nd, i)
+ValidDeposit(nd) == nd.a = "Deposit" /\ nd.args.coll = 1 /\ nd.args.debt = 2 /\ nd.args.denom = DebtDenom /\ nd.args.prem >= 0 /\ nd.args.prem <= MaxPremium
+                    /\ nd.args.amt > 0 /\ Pre(nd).bal[nd.args.u][DebtDenom] >= nd.args.amt
 Stats == PrintT(<<"STATS", [nodes |-> NLog,
-   deposits |-> Count(LAMBDA nd : OkAct(nd, "Deposit")),
-   cancels |-> Count(LAMBDA nd : OkAct(nd, "Cancel")),
-   withdraws |-> Count(LAMBDA nd : OkAct(nd, "Withdraw")),
+   deposits |-> Count(ValidDeposit),
+   cancels |-> Count(LAMBDA nd : nd.a = "Cancel" /\ DepOf(Pre(nd), nd.args.prem, nd.args.u) > 0),
+   withdraws |-> Count(LAMBDA nd : nd.a = "Withdraw" /\ nd.args.denom = DebtDenom /\ nd.args.amt > 0 /\ nd.args.amt <= DepOf(Pre(nd), nd.args.prem, nd.args.u)),
    withdrawOver |-> Count(LAMBDA nd : nd.a = "Withdraw" /\ nd.args.amt > DepOf(Pre(nd), nd.args.prem, nd.args.u) /\ DepOf(Pre(nd), nd.args.prem, nd.args.u) > 0),
    withdrawOtherDenom |-> Count(LAMBDA nd : nd.a = "Withdraw" /\ nd.args.denom # DebtDenom /\ DepOf(Pre(nd), nd.args.prem, nd.args.u) > 0),
    rejected |-> Count(LAMBDA nd : nd.a \in MsgActs /\ ~nd.res.ok),
-   fills |-> Count(LAMBDA nd : nd.a = "Block" /\ SumDep(Post(nd)) < SumDep(Pre(nd))),
-   fillsExact |-> Count(LAMBDA nd : nd.a = "Block" /\ nd.st.ev.fillEq),
-   fillsOver |-> Count(LAMBDA nd : nd.a = "Block" /\ nd.st.ev.fillOver),
-   fillsUnder |-> Count(LAMBDA nd : nd.a = "Block" /\ nd.st.ev.fillUnder) ]>>)
+   fills |-> Count(LAMBDA nd : nd.a = "Block" /\ \E i \in 1..Len(Pre(nd).dep) : Touched(nd, i)),
+   fillsExact |-> Count(LAMBDA nd : Offered(nd, LAMBDA d, x : d = x)),
+   fillsExactSingle |-> Count(LAMBDA nd : nd.a = "Block" /\ \E i \in 1..Len(Pre(nd).dep) : \E k \in 1..Len(DutchOf(nd)) :
+                                 DutchOf(nd)[k].debt > 0 /\ Pre(nd).dep[i].amt = DutchOf(nd)[k].debt /\ Touched(nd, i) /\ AloneAtPremium(Pre(nd), i)),
+   fillsOver |-> Count(LAMBDA nd : Offered(nd, LAMBDA d, x : d > x)),
+   fillsUnder |-> Count(LAMBDA nd : Offered(nd, LAMBDA d, x : d < x /\ d > 0)) ]>>)
 AllSeen == Stats /\ TLCGet("stats").distinct = NLog
 =============================================================================
